@@ -10,7 +10,7 @@ def remainder (len ctr : Nat) : List Nat := rangeList (min ctr len) len
 /-- the model's owner phase yields exactly that -/
 theorem owner_intoseq_is_remainder (s : KSrc) (c : Cfg) :
     (owner s c (.intoseq none)).2.getLast? = some (.ret (.seq ((remainder s.len (c.ctr 0)).map s.valAt))) := by
-  simp [owner, takeCount, remainder]
+  simp [owner, takeCountO, remainder]
 
 /-- **Delivered ++ remainder = source, nothing duplicated or lost, in order**: for every source, every family of
 per-thread programs and every interleaving, when the history of the iterator has no skip and does not wrap. -/
